@@ -50,6 +50,22 @@ pub trait Oversize: Scheme {
     const HIDING_ZERO_REFUSED: bool = false;
     const HIDING_BEYOND_KEY_REFUSED: bool = false;
     const NEEDS_RNG_ALWAYS: bool = false;
+    /// univariate schemes: a random polynomial of exactly this degree
+    fn uni_poly_of(_deg: usize, _seed: u64) -> Option<Self::P> {
+        None
+    }
+    /// `trim` refuses an enforced bound above the supported degree (SonicKZG10) / only above the maximum
+    /// degree (MarlinKZG10, whose shifted powers reach up to max_degree); None = trim takes no bound list
+    const TRIM_BOUND_LIMIT: Option<&'static str> = None;
+}
+
+fn uni_of<F: ark_ff::PrimeField, Pl: DenseUVPolynomial<F>>(deg: usize, seed: u64) -> Pl {
+    let mut g = rng(seed);
+    let mut c: Vec<F> = (0..=deg).map(|_| F::rand(&mut g)).collect();
+    if c[deg].is_zero() {
+        c[deg] = F::one();
+    }
+    Pl::from_coefficients_vec(c)
 }
 
 fn uni_over<F: ark_ff::PrimeField, Pl: DenseUVPolynomial<F>>(info: &KeyInfo, mag: u8, seed: u64) -> Option<(Pl, String)> {
@@ -71,6 +87,10 @@ impl Oversize for Marlin {
     fn oversize(info: &KeyInfo, mag: u8, seed: u64) -> Option<(UniPoly, String)> {
         uni_over::<Fr, UniPoly>(info, mag, seed)
     }
+    fn uni_poly_of(deg: usize, seed: u64) -> Option<UniPoly> {
+        Some(uni_of::<Fr, UniPoly>(deg, seed))
+    }
+    const TRIM_BOUND_LIMIT: Option<&'static str> = Some("max");
     const HIDING_ZERO_REFUSED: bool = true;
     const HIDING_BEYOND_KEY_REFUSED: bool = true;
 }
@@ -78,6 +98,10 @@ impl Oversize for Sonic {
     fn oversize(info: &KeyInfo, mag: u8, seed: u64) -> Option<(UniPoly, String)> {
         uni_over::<Fr, UniPoly>(info, mag, seed)
     }
+    fn uni_poly_of(deg: usize, seed: u64) -> Option<UniPoly> {
+        Some(uni_of::<Fr, UniPoly>(deg, seed))
+    }
+    const TRIM_BOUND_LIMIT: Option<&'static str> = Some("supported");
     const HIDING_ZERO_REFUSED: bool = true;
     const HIDING_BEYOND_KEY_REFUSED: bool = true;
 }
@@ -86,6 +110,9 @@ impl Oversize for Ipa {
         let mut i2 = info.clone();
         i2.max_degree = (info.max_degree + 1).next_power_of_two() - 1;
         uni_over::<JFr, JUniPoly>(&i2, mag, seed)
+    }
+    fn uni_poly_of(deg: usize, seed: u64) -> Option<JUniPoly> {
+        Some(uni_of::<JFr, JUniPoly>(deg, seed))
     }
 }
 impl Oversize for Pst13 {
@@ -334,6 +361,84 @@ pub fn check_trait<S: Oversize>(c: &Case, ctx: &mut CaseCtx) -> Result<(), Failu
             }
             Ok(())
         }
+        // ---- unsupported / inconsistent degree bound handed to the committer -------------------------
+        10 => {
+            if !S::HAS_BOUNDS {
+                return Ok(());
+            }
+            let sup = info.supported;
+            let enforced: Vec<usize> = if info.any_bound { (1..=sup).collect() } else { info.enforced.clone().unwrap_or_default() };
+            let not_enforced: Vec<usize> = (1..=sup).filter(|d| !enforced.contains(d)).collect();
+            // (bound, degree, what)
+            let req: Option<(usize, usize, &str)> = match c.mag % 5 {
+                0 => Some((sup + 1, pick(sel as u16, sup + 1), "degree_bound_beyond_supported")),
+                1 if !not_enforced.is_empty() => {
+                    let b = not_enforced[pick(sel as u16, not_enforced.len())];
+                    Some((b, pick((sel >> 16) as u16, b + 1), "degree_bound_not_enforced"))
+                }
+                2 => enforced.iter().cloned().filter(|b| *b < sup).nth(0).map(|b| (b, b + 1, "degree_above_its_bound")),
+                3 => Some((info.max_degree + 1 + pick(sel as u16, 3), pick((sel >> 16) as u16, sup + 1), "degree_bound_beyond_max")),
+                _ if !enforced.is_empty() => {
+                    let b = enforced[pick(sel as u16, enforced.len())];
+                    if b < sup { Some((b, sup, "degree_above_its_bound")) } else { None }
+                }
+                _ => None,
+            };
+            let Some((b, deg, what)) = req else {
+                ctx.label("no_such_bound_request_for_this_key");
+                return Ok(());
+            };
+            // IPA admits every bound in 1..=supported and rounds its supported degree up to 2^k - 1
+            if info.any_bound && b <= sup && deg <= b {
+                return Ok(());
+            }
+            ctx.label(what);
+            let Some(p) = S::uni_poly_of(deg, sel) else { return Ok(()) };
+            let lp = LabeledPolynomial::new("b".into(), p, Some(b), None);
+            let mut r = rng(sel);
+            let o = guard(|| S::PC::commit(&keys.ck, [&lp], Some(&mut r)));
+            refused(ctx, S::NAME, "commit", what, &o, || format!("degree {deg} under bound {b}; supported {sup}, max {}, enforced {:?}", info.max_degree, enforced))
+        }
+        // ---- key requested with an enforced bound the parameters / supported degree do not cover -------
+        11 => {
+            let Some(limit) = S::TRIM_BOUND_LIMIT else { return Ok(()) };
+            let (sup, max) = (info.supported, info.max_degree);
+            let lim = if limit == "supported" { sup } else { max };
+            let d = match c.mag % 3 {
+                0 => lim + 1,
+                1 if limit == "supported" && max > sup => sup + 1 + pick(sel as u16, max - sup),
+                _ => lim + 1 + pick(sel as u16, 4),
+            };
+            let mut req = info.requested_bounds.clone().unwrap_or_default();
+            let at = pick((sel >> 16) as u16, req.len() + 1);
+            req.insert(at, d);
+            if c.mag >= 3 {
+                // the offending bound twice, the second time in front
+                req.insert(0, d);
+            }
+            ctx.label("trim_with_unsupported_degree_bound");
+            ctx.label_if(at + 1 < req.len(), "offending_bound_not_last_in_list");
+            ctx.derived = Some(json!({"scheme": S::NAME, "key": info.desc, "requested_bounds": req, "offending_bound": d, "limit": limit}));
+            let o = guard(|| S::PC::trim(&keys.pp, sup, info.hiding, Some(&req)));
+            refused(ctx, S::NAME, "trim", "unsupported_degree_bound", &o, || format!("bounds {req:?} with supported degree {sup} and max degree {max} (bounds above the {limit} degree are refused)"))?;
+            // MarlinKZG10 serves bounds in (supported, max]; the committer must still refuse a polynomial above the supported degree
+            if limit == "max" && max > sup {
+                let d2 = sup + 1 + pick(sel as u16, max - sup);
+                let mut req2 = info.requested_bounds.clone().unwrap_or_default();
+                req2.insert(pick((sel >> 16) as u16, req2.len() + 1), d2);
+                if let Out::Ok((ck2, _)) = guard(|| S::PC::trim(&keys.pp, sup, info.hiding, Some(&req2))) {
+                    ctx.label("bound_in_(supported,max]_served");
+                    let deg = sup + 1 + pick((sel >> 32) as u16, d2 - sup);
+                    if let Some(p) = S::uni_poly_of(deg, sel) {
+                        let lp = LabeledPolynomial::new("b".into(), p, Some(d2), None);
+                        let mut r = rng(sel);
+                        let o = guard(|| S::PC::commit(&ck2, [&lp], Some(&mut r)));
+                        refused(ctx, S::NAME, "commit", "oversized_polynomial_under_large_bound", &o, || format!("degree {deg} under bound {d2}, supported {sup}"))?;
+                    }
+                }
+            }
+            Ok(())
+        }
         _ => Ok(()),
     }
 }
@@ -406,8 +511,9 @@ use ark_poly_commit::PCCommitmentState;
 pub fn spec() -> PropertySpec {
     let budget = |name: &str| -> (u32, u32, usize) {
         match name {
-            "brakedown" | "mligero" => (200, 2000, 4),
-            _ => (240, 2400, 4),
+            "brakedown" | "mligero" => (300, 3000, 4),
+            "marlin" | "sonic" | "ipa" => (720, 7200, 4),
+            _ => (480, 4800, 4),
         }
     };
     let mut units: Vec<Box<dyn Unit>> = Vec::new();
@@ -442,7 +548,7 @@ pub fn spec() -> PropertySpec {
     ));
     PropertySpec {
         id: "C17",
-        rule: "Request kinds x magnitudes around the boundary (supported+1, max+1, 2max+1, supported+2; key variables +1/+2/-2; hiding 0 and beyond the supported hiding bound) inside otherwise valid generated scenarios: a polynomial larger than the key (degree / total degree / number of variables) handed to commit and to open; hiding bound 0, hiding bound beyond the key, hiding without an RNG; points with too few / too many coordinates handed to open and to check; a query for a polynomial that was not supplied, a commitment or an evaluation missing on the verifier side; mismatched labels between polynomial and commitment; trim beyond the parameters; setup with degree 0, zero / missing / odd variables; the same for KZG10 and multilinear PST through their inherent APIs. Oracle: the entry point returns Err or aborts - never a commitment, proof or Ok(true). Where a scheme defines the request instead of refusing it (a longer point whose extra coordinates are ignored, an open that does not look at labels) the check demands that whatever is served is sound: no value the polynomial does not take verifies. In-domain requests never aborting is C01's oracle. Non-trivial: magnitude exactly one past the boundary.",
+        rule: "Request kinds x magnitudes around the boundary (supported+1, max+1, 2max+1, supported+2; key variables +1/+2/-2; hiding 0 and beyond the supported hiding bound) inside otherwise valid generated scenarios: a polynomial larger than the key (degree / total degree / number of variables) handed to commit and to open; hiding bound 0, hiding bound beyond the key, hiding without an RNG; points with too few / too many coordinates handed to open and to check; a query for a polynomial that was not supplied, a commitment or an evaluation missing on the verifier side; mismatched labels between polynomial and commitment; trim beyond the parameters; an unsupported or inconsistent degree bound handed to commit (beyond supported / beyond max / not enforced / below the polynomial's degree) and to trim (an enforced-bound list containing, at any position and possibly twice, a bound above the supported degree for SonicKZG10 / above the maximum degree for MarlinKZG10, which by design serves bounds up to max_degree - there the committer must still refuse degrees above the supported degree); setup with degree 0, zero / missing / odd variables; the same for KZG10 and multilinear PST through their inherent APIs. Oracle: the entry point returns Err or aborts - never a commitment, proof or Ok(true). Where a scheme defines the request instead of refusing it (a longer point whose extra coordinates are ignored, an open that does not look at labels) the check demands that whatever is served is sound: no value the polynomial does not take verifies. In-domain requests never aborting is C01's oracle. Non-trivial: magnitude exactly one past the boundary.",
         assumptions: vec![
             "IPA treats any hiding bound (including 0) as 'hiding' and Ligero parameters do not bound the polynomial size: not out of domain for those schemes",
             "PST13 / multilinear PST polynomials with fewer variables than the key are scheme-defined and not asserted",
